@@ -703,38 +703,53 @@ func ruleHandshakeOnlyForNewFollower(w *core.World, r *core.Report) {
 		c, ok := core.Unwrap(v).(*ssa.Call)
 		return ok && strings.HasSuffix(core.ResolveCall(c).Name, ").GetRunId")
 	}
-	n := 0
-	for _, s := range core.Sites(f, false) {
-		if s.Instr.Parent() != f || s.Method != "Send" || !s.Common().IsInvoke() {
-			continue
-		}
-		code, ok := frameCode(s.Args()[0])
-		if !ok || code != meta {
-			continue
-		}
-		n++
-		bad := false
-		paths := 0
-		okEnum := core.EnumPathsN(f.Blocks[0], 0, 100000, 1, func(p *core.Path) {
-			on := false
-			for _, in := range p.Instrs {
-				if in == s.Instr {
-					on = true
-				}
+	// the handshake frames are looked for on the paths of Handle, in Handle itself or in a helper the path steps
+	// into (a function the rule base does not know: the reply may be a method of its own); sendData, which
+	// announces a snapshot with the same code, is a known function and is not entered
+	type verdict struct {
+		site  core.Site
+		paths int
+		bad   bool
+	}
+	sites := map[ssa.Instruction]*verdict{}
+	var order []ssa.Instruction
+	okEnum := core.EnumPathsN(f.Blocks[0], 0, 100000, 1, func(p *core.Path) {
+		seen := map[ssa.Instruction]bool{}
+		for _, in := range p.Instrs {
+			ci, isCall := in.(*ssa.Call)
+			if !isCall || seen[in] {
+				continue
 			}
-			if !on || bad {
-				return
+			s := core.ResolveCall(ci)
+			if s.Method != "Send" || !s.Common().IsInvoke() || len(s.Args()) == 0 {
+				continue
 			}
-			paths++
+			code, ok := frameCode(s.Args()[0])
+			if !ok || code != meta {
+				continue
+			}
+			seen[in] = true
+			v := sites[in]
+			if v == nil {
+				v = &verdict{site: s}
+				sites[in] = v
+				order = append(order, in)
+			}
+			v.paths++
 			if !p.Holds(token.EQL, isID, isConstStr("")) && !p.Holds(token.EQL, isID, isConstStr("?")) {
-				bad = true
+				v.bad = true
 			}
-		})
-		if !okEnum {
-			r.Undecided("ReplicaLeader.Handle/handshake-only-without-id", s.Pos(), "too many paths")
-			continue
 		}
-		r.Check(!bad && paths > 0, "ReplicaLeader.Handle/handshake-only-without-id", s.Pos(), "the handshake frame answers a request on a path that did not establish that the follower named no replication id (\"\" or \"?\"): a follower that names an id the leader does not have takes the frame for the announcement of an empty snapshot, wipes its copy and asks again under the same id without end")
+	})
+	if !okEnum {
+		r.Undecided("ReplicaLeader.Handle/handshake-only-without-id", f.Pos(), "too many paths")
+		return
+	}
+	n := 0
+	for _, in := range order {
+		v := sites[in]
+		n++
+		r.Check(!v.bad && v.paths > 0, "ReplicaLeader.Handle/handshake-only-without-id", v.site.Pos(), "the handshake frame answers a request on a path that did not establish that the follower named no replication id (\"\" or \"?\"): a follower that names an id the leader does not have takes the frame for the announcement of an empty snapshot, wipes its copy and asks again under the same id without end")
 	}
 	if n == 0 {
 		r.Fail("ReplicaLeader.Handle/handshake-only-without-id", f.Pos(), "no handshake frame is sent")
